@@ -170,3 +170,25 @@ Theorem App_domain_map_routes_prefixed_path :
     /\ with_app_name None e = e.
 Proof. intros. repeat split. Qed.
 Print Assumptions App_domain_map_routes_prefixed_path.
+
+(* before_request hooks that rewrite request['PATH_INFO'] / request['REQUEST_METHOD']: routing (hence the route
+   hooks, the handler and its kwargs, 404/405) and the HEAD test see the environ as the hooks that ran left it —
+   [serve_app_hooked] is [serve_app] on that environ, so every theorem above applies to it; hooks that edit
+   nothing change nothing. *)
+Theorem App_routing_after_before_hooks :
+  forall filt A e,
+    serve_app_hooked filt A e = serve_app filt A (environ_after_before A e)
+    /\ (forall p m v, environ_after_before (mkApplication (ap_router A) [mkH [MEnv false p; MEnv true m] v] (ap_after A)
+                                                          (ap_handler A) (ap_hook A) (ap_partial A) (ap_eh A)) e
+                      = mkEnviron p m (en_fw e) (en_json e) (en_url e))
+    /\ ((forall h, In h (ran_prefix (ap_before A)) -> forall m, In m (h_muts h) -> env_edit e m = e) ->
+        environ_after_before A e = e).
+Proof.
+  intros filt A e. split; [reflexivity|]. split; [intros; destruct v; reflexivity|].
+  intros H. unfold environ_after_before.
+  assert (G : forall ms, (forall m, In m ms -> env_edit e m = e) -> fold_left env_edit ms e = e).
+  { induction ms as [|m t IH]; intros Hm; [reflexivity|]. simpl. rewrite (Hm m (or_introl eq_refl)).
+    apply IH. intros m' Hin. apply Hm. now right. }
+  apply G. intros m Hin. apply in_flat_map in Hin. destruct Hin as [h [Hh Hm]]. exact (H h Hh m Hm).
+Qed.
+Print Assumptions App_routing_after_before_hooks.
